@@ -263,6 +263,26 @@ func (e *Engine) ProveFunction(fn *ssa.Function) (res *ProofResult) {
 		_ = o
 	}
 	out, results := p.run(fr, args, st)
+	if out != nil && out.Guard != tFalse {
+		// vacuity at exit: everything assumed along the way (library contracts, callee postconditions,
+		// invariants) must be consistent with reaching a return
+		eo := &Obligation{Name: p.fname + "/vacuity#exit", Kind: "vacuity", Guard: out.Guard, Goal: False(), NAssume: len(p.assumptions), Desc: "the assumptions made up to the function's exit are satisfiable", Fn: p.fname, IsCover: true}
+		eo.Pos = pos
+		p.obligations = append(p.obligations, eo)
+		// and every individual return point that the symbolic execution reached must be reachable under the
+		// assumptions (a contradictory library contract or invariant on one branch would otherwise prove
+		// everything on that branch)
+		if len(fr.rets) > 1 {
+			for j, rp := range fr.rets {
+				if rp.st.Guard == tFalse {
+					continue
+				}
+				ro := &Obligation{Name: fmt.Sprintf("%s/vacuity#ret%d", p.fname, j+1), Kind: "vacuity", Guard: rp.st.Guard, Goal: False(), NAssume: len(p.assumptions), Desc: "return point is reachable under the assumptions made", Fn: p.fname, IsCover: true, Informational: true}
+				ro.Pos = pos
+				p.obligations = append(p.obligations, ro)
+			}
+		}
+	}
 	if out != nil && c != nil {
 		env := fr.env(out, false)
 		var rv Value
